@@ -227,6 +227,13 @@ func (b *beacon) serve(ctx context.Context, kind int, epoch eth2p0.Epoch, idxs [
 		}
 	}
 	pause()
+	if ctx.Err() != nil { // the caller gave up: a beacon client returns the context's error
+		verifrt.Probe("stub-call-abandoned-by-caller")
+		if o != nil {
+			o.bnErr = true
+		}
+		return nil, 0, ctx.Err()
+	}
 	if st.faulty && verifrt.Chance("f", 1, 6) {
 		verifrt.Fault("beacon-error")
 		verifrt.Probe("stub-error")
@@ -261,6 +268,13 @@ func (b *beacon) serve(ctx context.Context, kind int, epoch eth2p0.Epoch, idxs [
 	}
 	verifrt.Note("bn %s e%d %v -> version %d (%d duties)", kindName[kind], epoch, idxs, ver, len(out))
 	pause()
+	if ctx.Err() != nil { // the answer was on its way when the caller gave up
+		verifrt.Probe("stub-call-abandoned-by-caller")
+		if o != nil {
+			o.bnErr = true
+		}
+		return nil, 0, ctx.Err()
+	}
 	return out, ver, nil
 }
 
@@ -648,8 +662,26 @@ func doRead(c *kernel.Ctx, ctx context.Context, st *runState, cache *eth2wrap.Du
 	verifrt.Note("c%d read %s ...", o.client, o.label)
 	o.call = st.stamp()
 	st.add(o)
-	gs, nilDuty, err := request(context.WithValue(ctx, opKey{}, o), cache, o.kind, epoch, vidxs)
+	// An eighth of the requests are made with a context of the caller's own that is already cancelled or ends
+	// 0-4 ms into the call (beacon calls take up to 6 ms): the request may fail with that context's error; what
+	// it leaves behind in the cache must not change any later answer.
+	rctx := context.WithValue(ctx, opKey{}, o)
+	if verifrt.Intn("w", 8) == 7 {
+		var rcancel context.CancelFunc
+		if verifrt.Intn("w", 3) == 0 {
+			rctx, rcancel = context.WithCancel(rctx)
+			rcancel()
+		} else {
+			rctx, rcancel = context.WithTimeout(rctx, time.Duration(verifrt.Intn("w", 5))*time.Millisecond)
+		}
+		defer rcancel()
+	}
+	gs, nilDuty, err := request(rctx, cache, o.kind, epoch, vidxs)
 	o.ret = st.stamp()
+	if err != nil && rctx.Err() != nil {
+		o.bnErr = true // the caller's own context ended: an error is a legitimate outcome
+		verifrt.Probe("request-abandoned-by-caller")
+	}
 	st.mu.Lock()
 	evs1, verNow, clNow := st.clearEvs, st.ver[o.ep], st.clears[o.ep]
 	st.mu.Unlock()
